@@ -3182,6 +3182,14 @@ def invalid_escape_sequence(source: str) -> str:
             yield node, "r" + code
 
 
+def _binds_names(lambda_body: ast.AST) -> bool:
+    """Does the body of a lambda assign names with := ?
+
+    These names are local to the lambda. In a comprehension the same expression would assign them
+    in the scope that the comprehension is written in."""
+    return any(isinstance(node, ast.NamedExpr) for node in ast.walk(lambda_body))
+
+
 @processing.fix
 def replace_filter_lambda_with_comp(source: str) -> str:
     """Replace filter(lambda ..., iterable) with equivalent list comprehension
@@ -3198,8 +3206,13 @@ def replace_filter_lambda_with_comp(source: str) -> str:
 
     find = "filter(lambda {{arg}}: {{body}}, {{iterable}})"
     replace = "({{arg}} for {{arg}} in {{iterable}} if {{body}})"
-    for replacement_range, replacement in processing.find_replace(source, find, replace):
+    for replacement_range, replacement, template_match in processing.find_replace(
+        source, find, replace, yield_match=True
+    ):
         if any(replacement_range & for_range for for_range in for_ranges):
+            continue
+
+        if _binds_names(template_match.body):
             continue
 
         yield replacement_range, replacement
@@ -3207,10 +3220,13 @@ def replace_filter_lambda_with_comp(source: str) -> str:
     find = "filterfalse(lambda {{arg}}: {{body}}, {{iterable}})"
     # The body is negated as a whole: 'not a or b' would only negate a.
     replace = "({{arg}} for {{arg}} in {{iterable}} if not ({{body}}))"
-    for replacement_range, replacement in processing.find_replace(
-        source, (find, "itertools." + find), replace
+    for replacement_range, replacement, template_match in processing.find_replace(
+        source, (find, "itertools." + find), replace, yield_match=True
     ):
         if any(replacement_range & for_range for for_range in for_ranges):
+            continue
+
+        if _binds_names(template_match.body):
             continue
 
         # Get rid of the parentheses again where they are not needed
@@ -3233,8 +3249,13 @@ def replace_map_lambda_with_comp(source: str) -> str:
     # Prevent replacement of map() calls where the map() call is the iterated value of a for loop
     root = core.parse(source)
     for_ranges = {core.get_charnos(node.iter, source) for node in core.walk(root, ast.For())}
-    for replacement_range, replacement in processing.find_replace(source, find, replace):
+    for replacement_range, replacement, template_match in processing.find_replace(
+        source, find, replace, yield_match=True
+    ):
         if any(replacement_range & for_range for for_range in for_ranges):
+            continue
+
+        if _binds_names(template_match.body):
             continue
 
         yield replacement_range, replacement
